@@ -40,11 +40,11 @@ def handle (ws : List String) : String :=
           | _ => outs
         (step st op, outs')) ({}, [])
       joinSp outs
-  | ["reconnect", n, point] =>
-    -- what the client announces on a new session (code at HEAD: listener.go OnOpen), and both
-    -- directions working again
-    let resources := (List.range (n.toNat?.getD 0)).map fun i => s!"r{i}"
-    let ann := (Seata.Props.C19.announceAsCoded resources).map fun a =>
+  | ["reconnect", names, point] =>
+    -- what the client announces on a new session (listener.go OnOpen + the rm hook), and both directions
+    -- working again; the resource managers' announcements are compared as a sorted list (sync.Map order)
+    let resources := Seata.LB.sortStrings (names.splitOn ",")
+    let ann := (Seata.Props.C19.announce resources).map fun a =>
       match a with | .tm => "TM" | .rm r => s!"RM({r})"
     s!"announce={",".intercalate ann} begin=ok phase2={if point == "between-phases" then "ok" else "n/a"}"
   | _ => "bad-op"
